@@ -43,7 +43,7 @@ def translate(notes, harness=None):
     if r.returncode != 0:
         notes.append("translator failed: " + r.stdout[-300:]); return None
     tr = json.load(open(rep))
-    obs = [k for k, v in tr["items"].items() if v.get("how") == "observed"]
+    obs = [k for k, v in tr["items"].items() if v.get("how") not in (None, "translated")]
     notes.append("translator: %d items regenerated from the sources, observed instead of translated=%s, missing=%s, changed=%s" % (len(tr["items"]), obs, tr["missing"], tr["changed"]))
     return tr
 
